@@ -122,6 +122,10 @@ def cond_of(x):
     raise TypeError("not a condition: %r" % (x,))
 
 
+def _is_zero_literal(o):
+    return type(o) in (int, float) and o == 0
+
+
 class SymReal(float):
     def __new__(cls, t):
         o = float.__new__(cls, float('nan'))
@@ -132,6 +136,16 @@ class SymReal(float):
     def _bin(self, other, f, rev=False):
         o = lift(other)
         if o is None:
+            try:
+                import numpy as np
+                if isinstance(other, np.ndarray):
+                    # scalar (op) array: element-wise, result is an object array (numpy itself would call float())
+                    out = np.empty(other.shape, dtype=object)
+                    for idx in np.ndindex(*other.shape):
+                        out[idx] = self._bin(other[idx], f, rev)
+                    return out
+            except ImportError:
+                pass
             return NotImplemented
         return SymReal(f(o, self.t) if rev else f(self.t, o))
 
@@ -214,10 +228,10 @@ class SymReal(float):
         return SymBool(f(self.t, o), zero_test=zero_test)
 
     def __eq__(s, o):
-        return s._cmp(o, lambda a, b: a == b, zero_test=True)
+        return s._cmp(o, lambda a, b: a == b, zero_test=_is_zero_literal(o))
 
     def __ne__(s, o):
-        return s._cmp(o, lambda a, b: a != b, zero_test=True)
+        return s._cmp(o, lambda a, b: a != b, zero_test=_is_zero_literal(o))
 
     def __lt__(s, o):
         return s._cmp(o, lambda a, b: a < b)
@@ -260,12 +274,16 @@ class SymReal(float):
 class Engine:
     """DFS re-execution engine with hypothesis pools."""
 
-    def __init__(self, feas_timeout_ms=3000, assert_timeout_ms=60000, max_paths=200000, fork_outputs=False):
+    def __init__(self, feas_timeout_ms=3000, assert_timeout_ms=60000, max_paths=200000, fork_outputs=False,
+                 output_branches='both', input_zero_tests='fork'):
+        self.output_branches = output_branches
+        self.input_zero_tests = input_zero_tests
         self.feas_timeout_ms = feas_timeout_ms
         self.assert_timeout_ms = assert_timeout_ms
         self.max_paths = max_paths
         self.fork_outputs = fork_outputs
         self.schedule = []  # list of [index, alternatives, kind]
+        self.mode = 'reexec'
         self.pos = 0
         self.pc = []
         self.pools = {}
@@ -332,7 +350,22 @@ class Engine:
             idx, alts, _ = self.schedule[self.pos]
         else:
             if is_output_term(cond):
-                alts = [True, False]  # no feasibility query on solver outputs (non-linear pools): both explored
+                # no feasibility query on solver outputs (non-linear pools): both sides explored, unless the check
+                # states the cut 'first' (only for branches its property's quantities do not depend on)
+                if self.output_branches == 'first':
+                    alts = [True]
+                    self.stats['output_branches_cut'] = self.stats.get('output_branches_cut', 0) + 1
+                else:
+                    alts = [True, False]
+            elif zero_test and self.input_zero_tests == 'generic':
+                # stated bound: parameters are generic - a coefficient polynomial of the inputs that CAN be non-zero
+                # is assumed non-zero (the zero set is excluded from the claim and counted in the evidence)
+                nz = not _is_eq(cond)       # value of `cond` on the non-zero side
+                if self.feasible(cond if nz else z3.Not(cond)):
+                    alts = [nz]
+                    self.stats['generic_assumed'] = self.stats.get('generic_assumed', 0) + 1
+                else:
+                    alts = [not nz]
             else:
                 alts = []
                 if self.feasible(cond):
@@ -343,12 +376,16 @@ class Engine:
                 raise Abort()
             if len(alts) > 1:
                 self.stats['forks'] += 1
+            if self.mode == 'fork':
+                alts = [self._fork_alternatives(alts)]
             self.schedule.append([0, alts, 'b'])
             idx = 0
         d = alts[idx]
         self.pos += 1
-        self.pc.append(cond if d else z3.Not(cond))
-        self.decisions.append(('b', str(cond)[:120], d))
+        if not (self.output_branches == 'first' and is_output_term(cond)):
+            # (a branch taken under the 'first' cut is a don't-care: its literal must not restrict the hypotheses)
+            self.pc.append(cond if d else z3.Not(cond))
+        self.decisions.append(('b', cond, d))
         return d
 
     def choose(self, n, label=""):
@@ -359,6 +396,8 @@ class Engine:
             idx, alts, _ = self.schedule[self.pos]
         else:
             alts = list(range(n))
+            if self.mode == 'fork':
+                alts = [self._fork_alternatives(alts)]
             self.schedule.append([0, alts, 'c'])
             idx = 0
             self.stats['choose'] += 1
@@ -367,37 +406,111 @@ class Engine:
         self.decisions.append(('c', label, d))
         return d
 
-    def explore(self, fn, on_path=None):
-        """Run fn(engine) over all feasible paths.  Returns list of per-path results."""
+    def explore(self, fn, summarize, mode='fork'):
+        """Run fn(engine) over all feasible paths; `summarize(engine, result, error)` -> picklable per-path record.
+        mode 'fork': at every fork point the process is forked (child explores the first alternative's subtree,
+        parent waits, then takes the next one) - nothing is re-executed.  mode 'reexec': classic DFS re-execution."""
+        if mode == 'fork':
+            return self._explore_fork(fn, summarize)
+        return self._explore_reexec(fn, summarize)
+
+    def _run_one(self, fn, summarize):
         global ENGINE
-        results = []
+        self.pos = 0
+        self.pc = []
+        self.pools = {}
+        self.decisions = []
+        self._out_cache = {}
+        ENGINE = self
+        rec = None
+        try:
+            r = fn(self)
+            self.stats['paths'] += 1
+            rec = summarize(self, r, None)
+        except Abort:
+            self.stats['aborted'] += 1
+            rec = summarize(self, None, 'abort')
+        except Inconclusive as ex:
+            self.stats['paths'] += 1
+            rec = summarize(self, None, 'inconclusive: %s' % ex.what)
+        except Exception:
+            import traceback
+            self.stats['paths'] += 1
+            rec = summarize(self, None, 'error: ' + traceback.format_exc())
+        finally:
+            ENGINE = None
+        return rec
+
+    def _explore_reexec(self, fn, summarize):
+        self.mode = 'reexec'
+        records = []
         self.schedule = []
         while True:
-            self.pos = 0
-            self.pc = []
-            self.pools = {}
-            self.decisions = []
-            self._out_cache = {}
-            ENGINE = self
-            try:
-                r = fn(self)
-                self.stats['paths'] += 1
-                results.append(r)
-                if on_path is not None:
-                    on_path(self, r)
-            except Abort:
-                self.stats['aborted'] += 1
-            finally:
-                ENGINE = None
-            if self.stats['paths'] + self.stats['aborted'] > self.max_paths:
-                raise Inconclusive("path bound %d exceeded" % self.max_paths)
-            # backtrack
+            stats0 = dict(self.stats)
+            rec = self._run_one(fn, summarize)
+            rec['stats'] = {k: self.stats[k] - stats0.get(k, 0) for k in self.stats}
+            records.append(rec)
+            if len(records) > self.max_paths:
+                records.append(dict(error='inconclusive: path bound %d exceeded' % self.max_paths, stats={}))
+                break
             while self.schedule and self.schedule[-1][0] == len(self.schedule[-1][1]) - 1:
                 self.schedule.pop()
             if not self.schedule:
                 break
             self.schedule[-1][0] += 1
-        return results
+        return records
+
+    def _explore_fork(self, fn, summarize):
+        import os
+        import pickle
+        import tempfile
+        import shutil
+        self.mode = 'fork'
+        base = '/dev/shm' if os.path.isdir('/dev/shm') else None
+        self._dir = tempfile.mkdtemp(prefix='vf_paths_', dir=base)
+        self._root = os.getpid()
+        self._stats0 = dict(self.stats)
+        self.schedule = []
+        try:
+            rec = self._run_one(fn, summarize)
+            rec['stats'] = {k: self.stats[k] - self._stats0.get(k, 0) for k in self.stats}
+            with open(os.path.join(self._dir, "%d.pkl" % os.getpid()), "wb") as f:
+                pickle.dump(rec, f)
+        except BaseException:
+            if os.getpid() != self._root:
+                os._exit(3)
+            raise
+        if os.getpid() != self._root:
+            os._exit(0)
+        records = []
+        for fnm in sorted(os.listdir(self._dir)):
+            if fnm.endswith('.pkl'):
+                with open(os.path.join(self._dir, fnm), "rb") as f:
+                    records.append(pickle.load(f))
+            elif fnm.endswith('.crash'):
+                records.append(dict(error='error: a forked path process crashed (%s)' % fnm, stats={}))
+        shutil.rmtree(self._dir, ignore_errors=True)
+        if len(records) > self.max_paths:
+            records.append(dict(error='inconclusive: path bound %d exceeded' % self.max_paths, stats={}))
+        return records
+
+    def _fork_alternatives(self, alts):
+        """fork mode: children take alts[:-1] (sequentially), this process continues with alts[-1]"""
+        import os
+        for a in alts[:-1]:
+            n_existing = len(os.listdir(self._dir))
+            if n_existing > self.max_paths:
+                raise Inconclusive("path bound %d exceeded" % self.max_paths)
+            pid = os.fork()
+            if pid == 0:
+                import sys
+                sys.setprofile(None)
+                self._stats0 = dict(self.stats)
+                return a
+            _, st = os.waitpid(pid, 0)
+            if st != 0:
+                open(os.path.join(self._dir, "%d.crash" % pid), "w").close()
+        return alts[-1]
 
     # ---- assertions -------------------------------------------------------------------------------
     def hyps(self, pools=()):
